@@ -49,7 +49,7 @@ MANIFEST = {
             "the last return is nil, actionCI has exactly one more nil return placed before checkRules, both threshold decisions compare 'severity >= fail-on' with a "
             "never-reassigned parsed value, main exits 1 on error, the stage sequence of the returns respects setup < linting < submission < threshold (last, followed by the final nil), CountBySeverity counts every report once under its own severity, the flag defaults are fail-on=bug, min-severity=warning. Tied by the two translators and by running the real "
             "binary (exit status; report present whenever the model says submitted) over generated scenarios, a 4x4 severity/fail-on grid incl. severities fixed in built-in checks, the same issue reported with two different severities (both orders; on two rules, and by two check instances on the same rule with the union of "
-            "single-block runs as reference), size extremes (80 KB lines/values, 400 rules), "
+            "single-block runs as reference), size extremes (80 KB lines/values, 400 rules), symlinked rule files/directories with the invariance oracle 'reporting flags change neither the exit status nor the JSON report', "
             "a ci branch deleting a still-referenced rule file and renaming another, one "
             "injected fault per error path, base-branch / no-change ci layouts and reporting flags.",
     "note": "Coq 8.16.1 kernel+VM, no axioms; translators trusted for table extraction; stage order and Summary hand-modelled and validated by differential execution of the "
